@@ -6,6 +6,8 @@ package camelcase
 
 //@ func Split
 //@   props C19 C03
+//@   pure
+//@   noglobals
 //@   ensures !utf8.ValidString(src) ==> len(entries) == 1 && entries[0] == src
 //@   ensures forall e int :: 0 <= e && e < len(entries) ==> len(entries[e]) > 0
 //@   loop 1 invariant forall g int :: 0 <= g && g < len(runes) ==> len(runes[g]) > 0
@@ -13,6 +15,19 @@ package camelcase
 //@   loop 2 invariant forall g int :: i <= g && g < len(runes) ==> len(runes[g]) > 0
 //@   loop 2 decreases len(runes) - i
 //@   loop 3 invariant forall e int :: 0 <= e && e < len(entries) ==> len(entries[e]) > 0
+
+//@ func makeCase
+//@   props C19
+//@   requires transWord != nil
+//@   lit 1 nopanic
+//@   lit 1 noglobals
+//@   note lit 1 is the converter itself (LowerSnakeCase ... UpperCamelCase are makeCase(...) values): total (no panic on any input) and without stores to package-level state; transWord is one of wrap(strings.ToLower|ToUpper) or the two closures in naming.go
+
+//@ func wrap
+//@   props C19
+//@   requires transWord != nil
+//@   lit 1 nopanic
+//@   lit 1 noglobals
 
 // ---- govc prelude: ghost helpers of the clause language (identical in every contracts_verif.go) ----
 
@@ -49,4 +64,19 @@ func spec_forallIn(lo, hi int, p func(int) bool) bool {
 		}
 	}
 	return true
+}
+
+// spec_sortedKeys: the ascending enumeration of a map's key set (executable: insertion sort, no imports).
+func spec_sortedKeys[V any](m map[string]V) []string {
+	keys := make([]string, 0, len(m))
+	for k := range m {
+		i := len(keys)
+		keys = append(keys, k)
+		for i > 0 && keys[i-1] > k {
+			keys[i] = keys[i-1]
+			i--
+		}
+		keys[i] = k
+	}
+	return keys
 }
